@@ -110,9 +110,11 @@ def collect_writer_rows(prog, apg, fname, seen=None):
         raise AnalysisError(f'anchor writer {fname} vanished')
     var = fn.args.args[0].arg if fn.args.args else 'sliver'
     rows = []
+    # the dictionary being filled: whatever local the writer returns
+    dnames = {r.value.id for r in walk_no_nested(fn) if isinstance(r, ast.Return) and isinstance(r.value, ast.Name)}
     for n in walk_no_nested(fn):
         if isinstance(n, ast.Assign) and len(n.targets) == 1 and isinstance(n.targets[0], ast.Subscript) \
-                and isinstance(n.targets[0].value, ast.Name) and n.targets[0].value.id == 'prop_dict':
+                and isinstance(n.targets[0].value, ast.Name) and n.targets[0].value.id in dnames:
             consts = prop_consts_in(prog, n.targets[0].slice, apg.module, apg)
             if len(consts) != 1:
                 raise AnalysisError(f'{apg.module.relpath}:{n.lineno}: writer row key is not one property constant')
